@@ -91,7 +91,8 @@ func fitnessOf(p FitnessProg, epoch, i, n int, g *genetics.Genome) float64 {
 }
 
 type Scenario struct {
-	Ctor          string      `json:"constructor"` // spawn | random | read
+	Ctor          string      `json:"constructor"` // spawn | random | read | reread
+	PreEpochs     int         `json:"pre_epochs,omitempty"` // reread: epochs evolved before the population is written and read back
 	Start         GenomeSpec  `json:"start"`
 	RandIn        int         `json:"rand_in,omitempty"`
 	RandOut       int         `json:"rand_out,omitempty"`
@@ -125,7 +126,7 @@ func genScenario(cfg ScenarioCfg) *rapid.Generator[Scenario] {
 		cfg.FitnessKinds = allFitnessKinds
 	}
 	if len(cfg.Ctors) == 0 {
-		cfg.Ctors = []string{"spawn", "spawn", "spawn", "random", "read"}
+		cfg.Ctors = []string{"spawn", "spawn", "spawn", "random", "read", "reread"}
 	}
 	return rapid.Custom(func(t *rapid.T) Scenario {
 		sc := Scenario{Ctor: rapid.SampledFrom(cfg.Ctors).Draw(t, "constructor"), Start: gg.Draw(t, "start"),
@@ -139,6 +140,9 @@ func genScenario(cfg ScenarioCfg) *rapid.Generator[Scenario] {
 		case 2:
 			sc.Opts.Parallel = true
 		}
+		if sc.Ctor == "reread" {
+			sc.PreEpochs = rapid.IntRange(1, 8).Draw(t, "pre epochs")
+		}
 		if sc.Ctor == "random" {
 			sc.RandIn = rapid.IntRange(2, 4).Draw(t, "rand in")
 			sc.RandOut = rapid.IntRange(1, 3).Draw(t, "rand out")
@@ -151,6 +155,10 @@ func genScenario(cfg ScenarioCfg) *rapid.Generator[Scenario] {
 }
 
 type epochHooks struct {
+	// turnoverMustSucceed: a NextEpoch error is a violation of the property under check (C01, C02, C16); otherwise the
+	// history ends there, counted, because the property only speaks about the populations that turnovers produce
+	turnoverMustSucceed bool
+
 	built  func(pop *genetics.Population, opts *neat.Options) error
 	before func(epoch int, pop *genetics.Population) error
 	after  func(epoch int, pop *genetics.Population) error
@@ -173,10 +181,25 @@ func buildPopulation(sc Scenario, opts *neat.Options) (*genetics.Population, err
 			}
 		}
 		return pop, nil
-	case "read":
+	case "read", "reread":
 		first, err := genetics.NewPopulation(sc.Start.Build(), opts)
 		if err != nil {
 			return nil, fmt.Errorf("NewPopulation: %v", err)
+		}
+		if sc.Ctor == "reread" {
+			// an evolved population (genomes of different sizes, the largest numbers anywhere in the stream) is
+			// checkpointed and restored; a failing turnover here is C02's business
+			ctx := opts.NeatContext()
+			exec := &genetics.SequentialPopulationEpochExecutor{}
+			for e := 0; e < sc.PreEpochs; e++ {
+				n := len(first.Organisms)
+				for i, o := range first.Organisms {
+					o.Fitness = fitnessOf(sc.Fit, 1000+e, i, n, o.Genotype)
+				}
+				if err := exec.NextEpoch(ctx, e, first); err != nil {
+					return nil, errSkipScenario
+				}
+			}
 		}
 		var buf bytes.Buffer
 		if err = first.Write(&buf); err != nil {
@@ -208,7 +231,7 @@ func runScenario(sc Scenario, h epochHooks, rec *Rec) error {
 	opts := sc.Opts.Build()
 	pop, err := buildPopulation(sc, opts)
 	if err == errSkipScenario {
-		rec.Class("skipped: random constructor produced a gene-less genome")
+		rec.Class("skipped: constructor outside the domain (gene-less random genome / failing turnover before the checkpoint)")
 		return nil
 	}
 	if err != nil {
@@ -239,6 +262,10 @@ func runScenario(sc Scenario, h epochHooks, rec *Rec) error {
 			}
 		}
 		if err := exec.NextEpoch(ctx, e, pop); err != nil {
+			if !h.turnoverMustSucceed {
+				rec.Class("history ended by a failing turnover (outside this property, see C02)")
+				return nil
+			}
 			return fmt.Errorf("epoch %d: NextEpoch returned error: %v", e, err)
 		}
 		if h.after != nil {
@@ -411,7 +438,8 @@ type ledger struct {
 
 func newLedger() *ledger { return &ledger{genes: map[int64][3]int{}, roles: map[int]int{}} }
 
-// update records all organisms; strictNew requires that everything unknown so far is larger than the maxima before.
+// update records all organisms; strictNew (a turnover, as opposed to the construction of the population) requires that
+// everything unknown so far is larger than the maxima before and that equal new links carry equal numbers.
 func (l *ledger) update(pop *genetics.Population, strictNew bool, rec *Rec) error {
 	prevInnov, prevNode := l.maxInnov, l.maxNode
 	newGenes := map[int64]int{}
@@ -449,7 +477,7 @@ func (l *ledger) update(pop *genetics.Population, strictNew bool, rec *Rec) erro
 					l.maxInnov = g.InnovationNum
 				}
 			}
-			if g.InnovationNum > prevInnov {
+			if strictNew && g.InnovationNum > prevInnov {
 				newGenes[g.InnovationNum]++
 				if other, dup := newLinks[k]; dup && other != g.InnovationNum && twoNumbers == nil {
 					// the same new link under two numbers within one generation: reported after everything is
